@@ -843,9 +843,12 @@ impl VM {
             if cv.contains_self_ref() {
                 return Ok(());
             }
-            // Convert opcode Value to IR Val for checking
+            // Convert opcode Value to IR Val for checking. A function or a
+            // module has no IR form (it lowers to NULL, which a NULL
+            // alternative would admit) and is none of the things an
+            // alternation or a range can name.
             let ir_val: crate::build::ir::Val = val.as_ref().into();
-            if !cv.check(&ir_val) {
+            if matches!(val.as_ref(), F(_) | M(_)) || !cv.check(&ir_val) {
                 return Err(Error::new(
                     format!(
                         "Value {} does not satisfy constraint {}",
